@@ -26,10 +26,20 @@ Proof.
   - intros E. inversion E; subst. cbn. lia.
   - intros E. apply IH in E. cbn. lia.
 Qed.
-Lemma multiarch_len : forall i name, (len (snd (multiarch_loop name i)) <= len i)%nat.
+Lemma arch_named_len name i a r : arch_named name i = Ok (a, r) -> r = i.
+Proof. unfold arch_named. destruct (arch_ok name); [|discriminate]. intros E. now inversion E. Qed.
+Lemma arch_named_nofuel name i : arch_named name i <> OutOfFuel.
+Proof. unfold arch_named. destruct (arch_ok name); discriminate. Qed.
+Lemma multiarch_len : forall i name a r, multiarch_loop name i = Ok (a, r) -> (len r <= len i)%nat.
 Proof.
-  induction i as [|c i IH]; intros name; cbn [multiarch_loop]; [cbn; lia|].
-  destruct (multiarch_stop c); [cbn; lia|]. specialize (IH (name ++ enc c)). cbn. lia.
+  induction i as [|c i IH]; intros name a r; cbn [multiarch_loop].
+  - intros E. apply arch_named_len in E. subst. lia.
+  - destruct (multiarch_stop c); [intros E; apply arch_named_len in E; subst; lia|]. intros E. apply IH in E. cbn. lia.
+Qed.
+Lemma multiarch_nofuel : forall i name, multiarch_loop name i <> OutOfFuel.
+Proof.
+  induction i as [|c i IH]; intros name; cbn [multiarch_loop]; [apply arch_named_nofuel|].
+  destruct (multiarch_stop c); [apply arch_named_nofuel|apply IH].
 Qed.
 Lemma number_len : forall i num n r, number_loop num i = Ok (n, r) -> (len r <= len i)%nat /\ r <> [].
 Proof.
@@ -61,7 +71,7 @@ Lemma arch_name_len : forall i name a r, arch_name_loop name i = Ok (a, r) -> (l
 Proof.
   induction i as [|c i IH]; intros name a r; cbn [arch_name_loop]; [discriminate|].
   destruct (eqc c 0); [discriminate|]. destruct (eqc c 33); [discriminate|]. destruct (eqc c 93 || is_ws c).
-  - intros E. inversion E; subst. lia.
+  - intros E. apply arch_named_len in E. subst. lia.
   - intros E. apply IH in E. cbn. lia.
 Qed.
 
@@ -98,7 +108,7 @@ Proof.
   destruct (match a_list set with [] => _ | _ => _ end); [|discriminate].
   assert (G : forall nm j, arch_name_loop nm j <> OutOfFuel).
   { intros nm j. revert nm. induction j as [|c j IH]; intros nm; cbn; [discriminate|].
-    destruct (eqc c 0); [discriminate|]. destruct (eqc c 33); [discriminate|]. destruct (eqc c 93 || is_ws c); [discriminate|apply IH]. }
+    destruct (eqc c 0); [discriminate|]. destruct (eqc c 33); [discriminate|]. destruct (eqc c 93 || is_ws c); [apply arch_named_nofuel|apply IH]. }
   destruct (arch_name_loop [] _) as [[a k]| |] eqn:N; try discriminate. exfalso. eapply G; eauto.
 Qed.
 
@@ -252,7 +262,9 @@ Qed.
 (* ---- possibilities, relations, the field ---- *)
 Lemma possi_loop_S f p rel i : possi_loop (S f) p rel i =
   let c := peek i in
-  if eqc c 58 then let '(a, i) := parse_multiarch i in possi_loop f (set_arch p a) rel i
+  if eqc c 58 then
+    match parse_multiarch i with
+    | Ok (a, i) => possi_loop f (set_arch p a) rel i | Err => Err | OutOfFuel => OutOfFuel end
   else if is_ws c || eqc c 40 then
     match controllers f p i with
     | Ok (p, i) => possi_loop f p rel i | Err => Err | OutOfFuel => OutOfFuel end
@@ -276,7 +288,8 @@ Proof.
   destruct (eqc (peek i) 58) eqn:H58.
   - assert (Ine : i <> []) by (eapply peek_nonempty; [exact H58|discriminate]).
     unfold parse_multiarch. pose proof (multiarch_len (adv i) []) as Lm. pose proof (adv_len_lt i Ine) as La.
-    destruct (multiarch_loop [] (adv i)) as [a i1]. cbn [snd] in Lm.
+    pose proof (multiarch_nofuel (adv i) []) as NFm.
+    destruct (multiarch_loop [] (adv i)) as [[a i1]| |]; [|split; discriminate|contradiction]. specialize (Lm a i1 eq_refl).
     assert (Hf1 : (len i1 + 1 < f)%nat) by lia. destruct (IH (set_arch p a) rel i1 Hf1) as [A B]. split; [exact A|].
     intros rel' r E. destruct (B _ _ E) as [B1 _]. split; [lia|]. intros _. lia.
   - destruct (is_ws (peek i) || eqc (peek i) 40) eqn:HC.
